@@ -15,6 +15,7 @@ ENGINE_OF = {
     'C06': 'engines.e_pa',
     'C01': 'engines.e_nnps',
     'C17': 'engines.e_nnps',
+    'C07': 'engines.e_dom',
 }
 
 
